@@ -30,7 +30,7 @@ from ..cfg import must_facts
 from ..rules import call_sites, event_facts, tainted_names
 from ..mutate import mutate, remove_stmts, replace_expr, replace_stmt, parse_stmt, parse_expr
 from ..model import AnalysisError
-from ..x_taint import flow_taint, expr_tainted, regex_guard, regex_cleaner, guards_in, detects_all, HelperSummaries, Guard, resolve_pattern
+from ..x_taint import cond_cleaner_from, flow_taint, expr_tainted, regex_guard, regex_cleaner, guards_in, detects_all, HelperSummaries, Guard, resolve_pattern
 from ..x_flow import expand_locals
 from ..x_peval import UNK, peval, try_fold, make_resolver, pure_self_methods, module_constants, class_constants
 from ..x_cookie import analyse as analyse_cookie, text_params
@@ -569,10 +569,12 @@ def check_reason(ck):
             continue
         ps = text_params(fi)
         hs = HelperSummaries(ck.repo, fi, lambda h: regex_cleaner(ck.repo, h, FORBIDDEN))
-        states = flow_taint(fi, ps, clean_on_edge=hs.cleaner(regex_cleaner(ck.repo, fi, FORBIDDEN)), on_node=hs.on_node, expr_hook=hs.expr_hook)
+        cleaner = hs.cleaner(regex_cleaner(ck.repo, fi, FORBIDDEN))
+        states = flow_taint(fi, ps, clean_on_edge=cleaner, on_node=hs.on_node, expr_hook=hs.expr_hook)
+        cc = cond_cleaner_from(fi, cleaner)
         for s in stores:
             n_store += 1
-            bad = any(expr_tainted(s.ast.value, t, (), (), hs.expr_hook) for t in states.get(s.id, []))
+            bad = any(expr_tainted(s.ast.value, t, (), (), hs.expr_hook, cc) for t in states.get(s.id, []))
             ck.ob("C07.reason", fi, s.ast, not bad, "a caller-supplied reason phrase is stored only after a regex check excluding NUL/CR/LF (or replaced by a constant)")
         for n, g in guards_in(ck.repo, fi):
             n_guard += 1
